@@ -21,6 +21,7 @@ import sys
 
 sys.path.insert(0, os.path.dirname(os.path.abspath(__file__)))
 import extract_dispatch  # noqa: E402  (call templates of the helpers, see that file)
+import extract_solver    # noqa: E402  (resource skeleton of cnfgen/utils/solver.py, property C20)
 
 REPO = os.environ.get("CNFGEN_REPO", "/repo")
 HERE = os.path.dirname(os.path.dirname(os.path.abspath(__file__)))
@@ -538,6 +539,7 @@ def emit():
                                    extract_dispatch.graph_constructions(parse("cnfgen/clitools/graph_args.py")),
                                    goptions=extract_dispatch.graph_options(parse("cnfgen/clitools/graph_args.py")),
                                    gformats=extract_dispatch.graph_formats(parse("cnfgen/graphs.py"))))
+    L.append(extract_solver.emit(parse("cnfgen/utils/solver.py"), parse("cnfgen/formula/cnfio.py")))
     L.append("end Cnfgen.Gen")
     return "\n".join(L) + "\n"
 
@@ -561,6 +563,9 @@ def snapshot_documented():
 def main():
     if "--snapshot-documented" in sys.argv:
         return snapshot_documented()
+    # C07: phase order of cli(), call sites of `random`, static hazards -> Generated/Phases.lean
+    import extract_phases
+    extract_phases.main()
     text = emit()
     os.makedirs(os.path.dirname(OUT), exist_ok=True)
     if os.path.exists(OUT) and open(OUT, encoding="utf-8").read() == text:
